@@ -230,7 +230,9 @@ func Commands() map[string]func() {
 		"hpid": func() {
 			c := make(chan os.Signal, 2)
 			signal.Notify(c, syscall.SIGINT, syscall.SIGQUIT)
-			os.WriteFile(os.Args[1], []byte(strconv.Itoa(os.Getpid())), 0o666)
+			// the file appears with its content in place (write aside, then rename)
+			os.WriteFile(os.Args[1]+".tmp", []byte(strconv.Itoa(os.Getpid())), 0o666)
+			os.Rename(os.Args[1]+".tmp", os.Args[1])
 			s := <-c
 			os.WriteFile(os.Args[1]+".sig", []byte(fmt.Sprintf("%v %d", s, time.Now().UnixNano())), 0o666)
 			delay := 250
